@@ -1,0 +1,41 @@
+//go:build verif
+
+package cff
+
+// Hooks for the verification harness of property C05, part C05B (the plumbing
+// between a CFF file and the Type 2 interpreter).  Add-only; compiled only
+// with the build tag "verif".  Thin wrappers around unexported functions.
+
+import (
+	"bytes"
+
+	"seehuhn.de/go/sfnt/parser"
+)
+
+// VerifC05bReadPrivate decodes a Top DICT or Font DICT (no custom strings)
+// and runs readPrivate on it against the file contents data; it returns what
+// Read hands to the interpreter.
+func VerifC05bReadPrivate(dict []byte, data []byte) (subrs [][]byte, defaultWidth, nominalWidth float64, err error) {
+	ss := &cffStrings{}
+	d, err := decodeDict(dict, ss)
+	if err != nil {
+		return nil, 0, 0, err
+	}
+	p := parser.New(bytes.NewReader(data))
+	info, err := d.readPrivate(p, ss)
+	if err != nil {
+		return nil, 0, 0, err
+	}
+	return [][]byte(info.subrs), info.defaultWidth, info.nominalWidth, nil
+}
+
+// VerifC05bReadIndex runs readIndex at the start of data; it returns the
+// objects and the number of bytes left behind the INDEX.
+func VerifC05bReadIndex(data []byte) (objects [][]byte, rest int, err error) {
+	p := parser.New(bytes.NewReader(data))
+	idx, err := readIndex(p)
+	if err != nil {
+		return nil, 0, err
+	}
+	return [][]byte(idx), len(data) - int(p.Pos()), nil
+}
